@@ -338,3 +338,11 @@ Proof.
   intros Hin Hne. apply In_nth_error in Hin. destruct Hin as [j Hj].
   apply nth_error_In with (n := j). rewrite nth_error_upd_nth_neq; auto. congruence.
 Qed.
+
+Lemma upd_nth_fix {A} (l : list A) i (g : A -> A) x :
+  nth_error l i = Some x -> g x = x -> upd_nth i g l = l.
+Proof.
+  revert i; induction l as [|y r IH]; intros [|i]; cbn; try discriminate.
+  - intros E; inv E. intros ->. reflexivity.
+  - intros E Hg. rewrite (IH _ E Hg). reflexivity.
+Qed.
